@@ -856,10 +856,10 @@ pub fn run(t: &[&str]) -> String {
                     }
                     return format!("readback-mismatch {}", diff);
                 }
-                if let Err(x) = check_layout(&intent, &d) {
+                if let Err(x) = check_base_types_first(&intent, &d) {
                     return format!("readback-mismatch {}", x.replace(' ', "_"));
                 }
-                if let Err(x) = check_base_types_first(&intent, &d) {
+                if let Err(x) = check_layout(&intent, &d) {
                     return format!("readback-mismatch {}", x.replace(' ', "_"));
                 }
             }
